@@ -62,7 +62,10 @@ def make_syms(ob_pre, ins, unit_heights=False, used=None):
             ob_pre.append(z3.And(x.v >= 0, x.v <= 1))
         elif kind in ("h", "w"):
             atol = core.rv(0.001)
-            ob_pre.append(z3.And(x.v > 0, x.v < 1, 1 - x.v > 2 * atol))
+            if kind == "w":     # rule weights: zero (a muted rule) and weights above one are weights too; only 1 +- tolerance is left out
+                ob_pre.append(z3.Or(z3.And(x.v >= 0, 1 - x.v > 2 * atol), z3.And(x.v - 1 > 2 * atol, x.v <= 10)))
+            else:
+                ob_pre.append(z3.And(x.v > 0, x.v < 1, 1 - x.v > 2 * atol))
         ins[name] = x
         return x
     return sym
